@@ -194,6 +194,15 @@ cpa('batch', ['ALLOC2(0);FREE2(0)', 'ALLOC1(0);FREE1(0)'], cap=2, tiers=TH, qcap
 cpa('keep_one', ['ALLOC1(0);ALLOC1(1);FREE1(0)', 'ALLOC1(0);FREE1(0)'], cap=2, tiers=TH, qcap=1500, timeout=7200)
 cpa('one_thread_cycle', ['ALLOC1(0);FREE1(0);ALLOC1(1);FREE1(1)'], cap=1)
 
+# ----------------------------------------------------------------------------------------------- C06: monotonic resources (sequential)
+MRX = ['babylon/reusable/memory_resource.cpp', 'babylon/reusable/page_allocator.cpp', 'babylon/concurrent/counter.cpp', 'babylon/new.cpp']
+def mr(name, k, prefix, pbytes, maxbytes, maxalog, **kw):
+    S('mr_' + name, 'memres/mr.cpp', {'assert': 'C06'}, defs=['VF_K=%d' % k, 'VF_PREFIX=%d' % prefix, 'VF_PREFIX_BYTES=%d' % pbytes, 'VF_MAXBYTES=%d' % maxbytes, 'VF_MAXALIGN_LOG2=%d' % maxalog],
+      extra=MRX, models=['sc'], bound=12, **kw)
+mr('fresh_k2', 2, 0, 8, 300, 9)
+mr('array_full_k2', 2, 15, 200, 300, 6)
+mr('array_last_slot_k2', 2, 14, 200, 140, 4)
+
 # ----------------------------------------------------------------------------------------------- manifest texts
 LEVEL_TEXT = {
  'C01': 'Real ConcurrentBoundedQueue<two-word payload, VS> IR; client programs of 2-4 threads mixing push/pop/try_/push_n/pop_n/callback variants on capacities 1-2; oracle = exactly-once multiset, per-thread FIFO, fully published payload, try_ success when sequenced after enough completed operations.',
